@@ -151,10 +151,11 @@ class World:
 @contextlib.contextmanager
 def instrumented(world, conv, steps, fail_at):
     import spikeglx
-    state = {"n": 0, "closes": 0, "in_check": False}
+    state = {"n": 0, "closes": 0, "in_check": False, "verified": False}
+    conv._verif_state = state
 
     def point(label):
-        steps.append({"pt": label, "fs": world.project(), "cd": bool(conv.check_completed)})
+        steps.append({"pt": label, "fs": world.project(), "cd": bool(conv.check_completed), "vr": state["verified"]})
         i = state["n"]
         state["n"] += 1
         if fail_at is not None and i == fail_at:
@@ -188,7 +189,9 @@ def instrumented(world, conv, steps, fail_at):
         point("check")
         state["in_check"] = True
         try:
-            return orig_check(*a, **k)
+            r = orig_check(*a, **k)
+            state["verified"] = True       # the comparison of this run's output with the original ran to its end
+            return r
         finally:
             state["in_check"] = False
     conv.check_NP24 = w_check
@@ -261,18 +264,23 @@ def one_process(world, o, fail_at, steps, conv=None):
             fired = True
         except Exception as e:  # noqa - nobody injected this
             status = "raised"
-            steps.append({"pt": "raise", "fs": world.project(), "cd": bool(conv.check_completed), "exc": f"{type(e).__name__}: {e}"[:160]})
+            steps.append({"pt": "raise", "fs": world.project(), "cd": bool(conv.check_completed), "vr": vr(conv),
+                          "exc": f"{type(e).__name__}: {e}"[:160]})
         finally:
             close_files(conv)
     if fail_at is not None and not fired:
         return None, conv
     if len(steps) == n0 and status != "raised":
         # process() returned before any instrumented step (not an NP2 probe / already split): the model's Prepare
-        steps.append({"pt": "prepare", "fs": steps[-1]["fs"], "cd": False})
+        steps.append({"pt": "prepare", "fs": steps[-1]["fs"], "cd": False, "vr": False})
     if status == "1":
-        steps.append({"pt": "return", "fs": world.project(), "cd": bool(conv.check_completed)})
-    steps.append({"pt": "end", "fs": world.project(), "cd": bool(conv.check_completed), "status": status})
+        steps.append({"pt": "return", "fs": world.project(), "cd": bool(conv.check_completed), "vr": vr(conv)})
+    steps.append({"pt": "end", "fs": world.project(), "cd": bool(conv.check_completed), "vr": vr(conv), "status": status})
     return status, conv
+
+
+def vr(conv):
+    return bool(getattr(conv, "_verif_state", {}).get("verified", False))
 
 
 def close_files(conv):
@@ -325,6 +333,7 @@ def history(world, runs):
         s.setdefault("opts", NOOPTS)
         s.setdefault("status", "none")
         s.setdefault("reuse", False)
+        s.setdefault("vr", False)
     return {"kind": world.kind, "form": world.form, "runs": [list(r) for r in runs], "steps": steps}
 
 
@@ -357,8 +366,9 @@ def plan(ctx):
             for o2 in (opts if not ctx.quick else rnd.sample(opts, 5)):
                 out.append((kind, form, [f, (o2, None)]))
         # the same converter object used again: process(overwrite=True) after a complete or an interrupted first process()
-        for o in rnd.sample(opts, 4 if ctx.quick else 16):
-            for fa in [None] + rnd.sample(range(0, 14), 2 if ctx.quick else 5):
+        key_opts = [o for o in opts if o["chk"] and o["del"]]           # the vectors under which the original can disappear
+        for o in key_opts + rnd.sample(opts, 2 if ctx.quick else 12):
+            for fa in [None, 8, 10, 12] + rnd.sample(range(0, 14), 1 if ctx.quick else 5):
                 out.append((kind, form, [(o, fa), (dict(o, ow=True), None, True)]))
                 if not ctx.quick:
                     out.append((kind, form, [(o, fa), (dict(o, ow=False), None, True)]))
@@ -403,7 +413,7 @@ def execute(ctx, items):
 
 def strip(t):
     return {"kind": t["kind"], "steps": [{"pt": s["pt"], "fs": s["fs"], "cd": s["cd"], "opts": s["opts"], "status": s["status"],
-                                          "reuse": s["reuse"]} for s in t["steps"]]}
+                                          "reuse": s["reuse"], "vr": s["vr"]} for s in t["steps"]]}
 
 
 def validate(ctx, traces, label):
